@@ -42,6 +42,7 @@ def run(ctx) -> None:
     rep.rule("C03.R5", "supersteps receive the scheduler's ready list", floor=2)
     rep.rule("C03.R6", "default-open early start only for gates that never executed", floor=1)
     rep.rule("C03.R8", "every option a node factory or node constructor accepts is used (none is silently dropped on the way to the node)", floor=8)
+    rep.rule("C03.R9", "a routing decision restored from the node cache was made under this gate's own configuration: the cache key covers every gate attribute the gate executors consult (targets, fallback, multi_target, branch names)", floor=2)
     rep.rule("C03.R7", "the controlling-gate relation is derived from the gates' declared targets (the relation the gate-decides-first filter uses), for every gate", floor=3)
 
     # ---- R1 ---------------------------------------------------------------------
@@ -299,6 +300,11 @@ def run(ctx) -> None:
             whyg = "activation consults every declared controlling gate of a node"
     rep.add("C03.R7", f"{gan_.qname}:all-declared-gates-consulted", okg, gan_.loc(), whyg)
     check_any_gate_activates(ctx, "C03.R7")
+
+    # ---- R9 ---------------------------------------------------------------------
+    from .c09 import check_key_covers_executor_reads
+
+    check_key_covers_executor_reads(ctx, "C03.R9", only=("GateNode",))
 
     # ---- R5 ---------------------------------------------------------------------
     check_ready_list_provenance(ctx, "C03.R5")
